@@ -13,9 +13,11 @@
 package c07
 
 import (
+	"context"
 	"fmt"
 	"os"
 	"path/filepath"
+	"reflect"
 	"runtime"
 	"sort"
 	"strings"
@@ -26,6 +28,7 @@ import (
 	"github.com/anishathalye/porcupine"
 	"gorm.io/gorm"
 	"gorm.io/gorm/clause"
+	"gorm.io/gorm/schema"
 	"gorm.io/gorm/utils/verifhook"
 
 	"verif/core"
@@ -76,9 +79,59 @@ type Language struct {
 }
 
 type Solo struct {
-	ID int64 `gorm:"primaryKey"`
-	V  string
-	N  int64
+	ID     int64 `gorm:"primaryKey"`
+	V      string
+	N      int64
+	Secret EncStr
+}
+
+// EncStr is its own serializer (the field type implements schema.SerializerInterface):
+// gorm keeps one instance per pooled scan value, which must never be shared.
+type EncStr string
+
+func (e *EncStr) Scan(ctx context.Context, field *schema.Field, dst reflect.Value, dbValue interface{}) error {
+	switch v := dbValue.(type) {
+	case []byte:
+		*e = EncStr(strings.TrimPrefix(string(v), "enc:"))
+	case string:
+		*e = EncStr(strings.TrimPrefix(v, "enc:"))
+	case nil:
+		*e = ""
+	default:
+		return fmt.Errorf("EncStr: unsupported %T", dbValue)
+	}
+	// an expensive decode: the decoded value sits in this instance for a while before gorm
+	// copies it into the record (widens the window in which a shared instance would be seen)
+	time.Sleep(150 * time.Microsecond)
+	return nil
+}
+
+func (e EncStr) Value(ctx context.Context, field *schema.Field, dst reflect.Value, fieldValue interface{}) (interface{}, error) {
+	return "enc:" + string(e), nil
+}
+
+// shared reusable handles carrying chain state with spare slice capacity (3 joins / 3
+// orders): every goroutine derives its own chain from them
+type sharedHandles struct{ joins, order *gorm.DB }
+
+var sharedOf sync.Map // root *gorm.DB -> *sharedHandles
+
+func getShared(root *gorm.DB) *sharedHandles {
+	v, _ := sharedOf.Load(root)
+	sh, _ := v.(*sharedHandles)
+	return sh
+}
+
+func makeShared(root *gorm.DB) {
+	sh := &sharedHandles{
+		joins: root.Table("users").
+			Joins("LEFT JOIN companies c1 ON c1.id = users.company_id").
+			Joins("LEFT JOIN users m1 ON m1.id = users.manager_id").
+			Joins("LEFT JOIN pets p0 ON p0.user_id = users.id AND p0.id < 0").
+			Session(&gorm.Session{}),
+		order: root.Table("solos").Order("n").Order("v").Order("id").Session(&gorm.Session{}),
+	}
+	sharedOf.Store(root, sh)
 }
 
 type Solo2 struct {
@@ -214,8 +267,44 @@ var steps = []step{
 		res := db.Create(&l)
 		return fmt.Sprintf("%s rows=%d", fmtErr(res.Error), res.RowsAffected)
 	}},
+	{"SharedJoins", func(db *gorm.DB, b int64) string {
+		sh := getShared(db)
+		if sh == nil {
+			return "no shared handle"
+		}
+		var out []struct {
+			ID   int64
+			Name string
+		}
+		err := sh.joins.Joins("LEFT JOIN toys t ON t.owner_id = users.id AND t.owner_type = 'users' AND t.name = ?", fmt.Sprint("t", b+10)).
+			Where("users.id >= ? AND users.id < ?", b, b+1000).Select("users.id AS id, t.name AS name").Order("users.id").Scan(&out).Error
+		return fmt.Sprintf("%s %v", fmtErr(err), out)
+	}},
+	{"SharedOrder", func(db *gorm.DB, b int64) string {
+		sh := getShared(db)
+		if sh == nil {
+			return "no shared handle"
+		}
+		var vs []string
+		err := sh.order.Order(fmt.Sprintf("id + %d", b)).Where("id >= ? AND id < ?", b, b+1000).Pluck("v", &vs).Error
+		return fmt.Sprintf("%s %v", fmtErr(err), vs)
+	}},
+	{"FindSolos", func(db *gorm.DB, b int64) string {
+		var ss []Solo
+		err := db.Where("id >= ? AND id < ?", b, b+1000).Order("id").Find(&ss).Error
+		out := fmtErr(err)
+		for _, x := range ss {
+			out += fmt.Sprintf(" {%d %s %d %s}", x.ID, x.V, x.N, x.Secret)
+		}
+		return out
+	}},
+	{"FirstSolo", func(db *gorm.DB, b int64) string {
+		var x Solo
+		err := db.First(&x, b+1).Error
+		return fmt.Sprintf("%s {%d %s %s}", fmtErr(err), x.ID, x.V, x.Secret)
+	}},
 	{"CreateSolo", func(db *gorm.DB, b int64) string {
-		res := db.Create(&[]Solo{{ID: b + 1, V: "a", N: 1}, {ID: b + 2, V: "b", N: 2}})
+		res := db.Create(&[]Solo{{ID: b + 1, V: "a", N: 1, Secret: EncStr(fmt.Sprint("s", b+1))}, {ID: b + 2, V: "b", N: 2, Secret: EncStr(fmt.Sprint("s", b+2))}})
 		return fmt.Sprintf("%s rows=%d", fmtErr(res.Error), res.RowsAffected)
 	}},
 	{"CreateSolo2", func(db *gorm.DB, b int64) string {
@@ -462,6 +551,8 @@ func run(c *core.Ctx) {
 
 	// serial reference on its own database and handle
 	hs := openCold(c, fmt.Sprintf("c07s_%d", c.Case), prep)
+	makeShared(hs.DB)
+	defer sharedOf.Delete(hs.DB)
 	want := make([][]string, G)
 	for g := range progs {
 		want[g] = runProgram(hs.DB, g, progs[g])
@@ -472,6 +563,8 @@ func run(c *core.Ctx) {
 	// concurrent run on a cold handle
 	h := openCold(c, fmt.Sprintf("c07c_%d", c.Case), prep)
 	defer h.Close()
+	makeShared(h.DB)
+	defer sharedOf.Delete(h.DB)
 	if warm {
 		// warm variant: every model has been used once on this handle before the goroutines start
 		for g := 0; g < 1; g++ {
@@ -683,7 +776,7 @@ func postChild(dir string, batch int, res *core.Result) {
 var Engine = &core.Engine{
 	ID:    "C07",
 	Level: "exploration",
-	Rule: "each case: G in {2,4,8,16(,32)} goroutines released from a barrier on one *gorm.DB whose schema cache is cold (fresh Open on a pre-created SQLite file; every 7th case warm), each running a seeded program of 4..9 calls out of 32 (graph creates through every relation kind of a mutually related model cluster plus unrelated models, First/Find/Preload/Joins, updates, deletes incl. soft delete and Select(assoc), nested and failing transactions, association mode, FirstOrCreate, Scan, FindInBatches) on its own key range; first statements touch different models of the cluster; PrepareStmt on/off; a hook yields right after a half-built schema became visible (2 of 3 cases); " +
+	Rule: "each case: G in {2,4,8,16(,32)} goroutines released from a barrier on one *gorm.DB whose schema cache is cold (fresh Open on a pre-created SQLite file; every 7th case warm), each running a seeded program of 4..9 calls out of 36 (chains derived from two shared reusable handles that carry three joins / three orders, reads of a model whose field type is its own serializer, graph creates through every relation kind of a mutually related model cluster plus unrelated models, First/Find/Preload/Joins, updates, deletes incl. soft delete and Select(assoc), nested and failing transactions, association mode, FirstOrCreate, Scan, FindInBatches) on its own key range; first statements touch different models of the cluster; PrepareStmt on/off; a hook yields right after a half-built schema became visible (2 of 3 cases); " +
 		"monitors: race detector (log parsed), per-call and final-state equality with the serial run of the same programs, porcupine-checked register histories on shared rows (every 2nd case); distinct = (G, PrepareStmt, warm, multiset of first statements, schemas parsed during the run); every run is non-trivial (at least 2 goroutines share the handle)",
 	Assumptions: []string{
 		"interleavings are sampled (natural scheduling + yields at schema.stored), not enumerated: held on the executions observed",
